@@ -139,7 +139,10 @@ func runC06(w *World, r *Report) {
 		re := CallsIn(pi, false, "SharedQueueI).Enqueue")
 		ok := len(ck) == 1 && len(re) == 1
 		if ok {
-			isAl := func(v ssa.Value) bool { e, isE := v.(*ssa.Extract); return isE && e.Tuple == ck[0].Value() && e.Index == 0 }
+			isAl := func(v ssa.Value) bool {
+				e, isE := v.(*ssa.Extract)
+				return isE && e.Tuple == ck[0].Value() && e.Index == 0
+			}
 			for _, alt := range ReturnAlts(pi, 0) {
 				b, isC := constBool(alt.Val)
 				if !isC || !condsHave(alt.Conds, b, isAl) {
@@ -160,7 +163,10 @@ func runC06(w *World, r *Report) {
 		dec := CallsIn(ca, false, "QuotaResourceI).Dec")
 		ok := len(al) == 1 && len(dec) == 1
 		if ok {
-			isAl := func(v ssa.Value) bool { e, isE := v.(*ssa.Extract); return isE && e.Tuple == al[0].Value() && e.Index == 0 }
+			isAl := func(v ssa.Value) bool {
+				e, isE := v.(*ssa.Extract)
+				return isE && e.Tuple == al[0].Value() && e.Index == 0
+			}
 			for _, alt := range ReturnAlts(ca, 0) {
 				if b, isC := constBool(alt.Val); isC {
 					if b {
